@@ -57,7 +57,7 @@ struct CallResult { ca: String, kind: &'static str, roa: Option<String>, ok: boo
 fn worker_ops(sys: &Sys, rng: &mut Rng, widx: u64, n: u64, results: &Mutex<Vec<CallResult>>) {
     for k in 0..n {
         let ca = *rng.pick(&CAS);
-        let kind = rng.weighted(&[40, 12, 10, 12, 10, 8, 8]);
+        let kind = rng.weighted(&[40, 12, 10, 12, 10, 8, 8, 8]);
         match kind {
             0 => { // add a ROA nobody else adds (accepted unless the CA does not hold the prefix)
                 let atom = match ca { "a" => rng.below(8), "b" => rng.below(4), "c" => rng.below(2), _ => 4 + rng.below(2) };
@@ -74,7 +74,11 @@ fn worker_ops(sys: &Sys, rng: &mut Rng, widx: u64, n: u64, results: &Mutex<Vec<C
             3 => { let ok = sys.sync_repo(ca).is_ok(); results.lock().unwrap().push(CallResult { ca: ca.into(), kind: "sync_repo", roa: None, ok }); }
             4 => { let ok = sys.keyroll_init(ca).is_ok(); results.lock().unwrap().push(CallResult { ca: ca.into(), kind: "keyroll_init", roa: None, ok }); }
             5 => { let ok = sys.keyroll_activate(ca).is_ok(); results.lock().unwrap().push(CallResult { ca: ca.into(), kind: "keyroll_activate", roa: None, ok }); }
-            _ => { let ok = sys.republish(false).is_ok(); results.lock().unwrap().push(CallResult { ca: ca.into(), kind: "republish", roa: None, ok }); }
+            6 => { let ok = sys.republish(false).is_ok(); results.lock().unwrap().push(CallResult { ca: ca.into(), kind: "republish", roa: None, ok }); }
+            _ => { // the daily snapshot task, run by the scheduler stand-in in parallel with everything else
+                let ok = sys.krill.tasks().schedule(krill::server::mq::Task::UpdateSnapshots, krill::server::mq::now()).is_ok();
+                results.lock().unwrap().push(CallResult { ca: ca.into(), kind: "schedule_update_snapshots", roa: None, ok });
+            }
         }
     }
 }
@@ -305,13 +309,31 @@ fn run_case(args: &Args, run: u64, seed: u64, w: &mut CaseWriter, jsonl: &mut st
             }
         }
     }
+    // every accepted change of every publisher is present: what the live publication server answers (its cached
+    // content plus catch-up) equals what a fresh store loads from the same storage
+    // (lists inside the statistics come out of hash maps: order them before comparing)
+    fn canon_sorted(v: &mut Value) {
+        match v {
+            Value::Array(a) => { for x in a.iter_mut() { canon_sorted(x); } a.sort_by_key(|x| x.to_string()); }
+            Value::Object(m) => for x in m.values_mut() { canon_sorted(x); },
+            _ => {}
+        }
+    }
+    let repo_view_ok = {
+        let fresh = krill::server::pubd::RepositoryContentProxy::create(sys.krill.storage()).ok()
+            .and_then(|p| p.stats().ok()).map(|st| { let mut v = serde_json::to_value(&st).unwrap(); canon_sorted(&mut v); v });
+        let live = sys.krill.repo_manager().repo_stats().ok().map(|st| { let mut v = serde_json::to_value(&st).unwrap(); canon_sorted(&mut v); v });
+        if std::env::var("KV_DEBUG").is_ok() && fresh != live { eprintln!("repo view: live {live:?} fresh {fresh:?}"); }
+        completed && (fresh.is_none() || fresh == live) || !completed
+    };
+    if !repo_view_ok { none_lost = false; }
     let _ = n_ops;
     let term = format!("mkCase {}%nat {} {} {} {} {} {} {}", n_threads.max(1), coq_list(&lock_events),
         coq_list(&rank.iter().map(|(l, r)| format!("({l}, {r})")).collect::<Vec<_>>()), coq_list(&trace),
         completed, versions_consecutive, none_lost, history_complete);
     let rec_json = json!({"index": w.total, "run": run, "backend": if disk {"disk"} else {"memory"}, "workers": n_workers, "ops_per_worker": n_ops, "threads_seen": n_threads,
         "probe_events": events.len(), "lock_events": lock_events.len(), "entity_trace": trace.len(), "locks": locks.map.len(), "nesting_edges": edges.len(),
-        "new_commands": new_commands, "phase0_listener_failure_after_restart": phase0, "completed": completed, "versions_consecutive": versions_consecutive, "none_lost_or_doubled": none_lost, "history_complete": history_complete,
+        "new_commands": new_commands, "phase0_listener_failure_after_restart": phase0, "completed": completed, "versions_consecutive": versions_consecutive, "none_lost_or_doubled": none_lost, "history_complete": history_complete, "repository_view_equals_fresh_load": repo_view_ok,
         "nesting": edges.iter().map(|(a, b)| { let n = |x: &u64| locks.map.iter().find(|(_, id)| *id == x).map(|(s, _)| s.rsplit('/').next().unwrap_or(s).to_string()).unwrap_or_default(); format!("{} -> {}", n(a), n(b)) }).collect::<Vec<_>>(),
         "class": {"completed": completed}});
     use std::io::Write;
